@@ -89,7 +89,45 @@ def t_same_name_different_scopes(rng, n):
             "sc%d(0)\nsc%d(1)\nsc%d(2)\nsc%d(1)\n" % (n, n, n, n, n))
 
 
-LAYOUT_CHANGING = [t_inject_before_local, t_inject_in_loop, t_lambda_call_forms, t_method_and_free, t_recursion_layout, t_conditional_decl,
+def t_function_then_global(rng, n):
+    """a name that resolves to a function while only the function exists must resolve to the global of that name once one is installed -
+    also in code (function body, stored lambda, loop body) that has run before"""
+    hit = rng.randrange(1, 4)
+    src = ("def tf%d(x) { return x + 1 }\ndef ap%d(x) { return tf%d(x) }\nvar st%d = fun(x) { return tf%d(x) * 2 }\n" % (n, n, n, n, n))
+    src += "print(ap%d(2))\nprint(st%d(2))\n" % (n, n)
+    if rng.random() < 0.5:
+        src += "global tf%d = fun(x) { return x * 100 }\n" % n
+    else:
+        src += "eval(\"global tf%d = fun(x) { return x * 100 }\")\n" % n
+    src += "print(ap%d(2))\nprint(st%d(2))\nprint(ap%d(3))\n" % (n, n, n)
+    src += ("def sc%d(x) { return x }\nvar seen%d = []\nfor (var i%d = 0; i%d < 5; ++i%d) {\n  if (i%d == %d) { eval(\"global sc%d = fun(x) { return 7 }\") }\n"
+            "  seen%d.push_back(sc%d(i%d))\n}\nprint(seen%d)\n" % (n, n, n, n, n, n, hit, n, n, n, n, n))
+    return src
+
+
+def t_moved_slot_and_shadow(rng, n):
+    """the outer variable changes slot (a variable injected ahead of it) while an inner block gains a variable of the same name: the stale
+    hint must not be repaired inside the scope it pointed to. A shadowing call never follows a call with the same padding (that sequence
+    is the recorded finding local-hint:nearer-binding-declared-later and is generated only as a probe)."""
+    src = ("def rd%d(pad, shadow) {\n  if (pad) { eval(\"var padding = 0\") }\n  var x = 1\n  {\n    var inner = 0\n    if (shadow) { eval(\"var x = 2\") }\n"
+           "    return x\n  }\n}\n" % n)
+    src += ("def wr%d(pad, shadow) {\n  if (pad) { eval(\"var padding = 0\") }\n  var x = 1\n  {\n    var inner = 0\n    if (shadow) { eval(\"var x = 2\") }\n"
+            "    x = x + 10\n    inner = x\n    print(inner)\n  }\n  return x\n}\n" % n)
+    for fn in ("rd", "wr"):
+        prev_pad = None
+        for _ in range(rng.randrange(3, 8)):
+            pad = rng.random() < 0.5
+            shadow = rng.random() < 0.5
+            if shadow and prev_pad is not None and pad == prev_pad:
+                pad = not pad
+            if shadow and prev_pad is None:
+                shadow = False
+            src += "print(%s%d(%s, %s))\n" % (fn, n, "true" if pad else "false", "true" if shadow else "false")
+            prev_pad = pad
+    return src
+
+
+LAYOUT_CHANGING = [t_function_then_global, t_moved_slot_and_shadow, t_inject_before_local, t_inject_in_loop, t_lambda_call_forms, t_method_and_free, t_recursion_layout, t_conditional_decl,
                    t_capture_vs_injected, t_same_name_different_scopes]
 # the only shapes that can legitimately show the two recorded findings: generated alone, never mixed with other templates, so that a
 # difference in any other program is reported whatever the audit hook says
@@ -167,7 +205,7 @@ def run(ctx, tier, seed, scale=1.0):
     if not ctx.samples:
         ctx.sample({"kind": progs[0][0], "program": progs[0][1][:900]})
     ctx.rule = ("70% layout-changing programs (1-3 templates: eval()-injected variables before/after locals, in loops, in recursion, shadowing a "
-                "global / a function / an outer local later, lambdas called free/bound/as attribute, method vs free call, conditional declarations; "
+                "global / a function / an outer local later, a global installed over a function of the same name, an outer variable that moves slot while an inner block shadows it, lambdas called free/bound/as attribute, method vs free call, conditional declarations; "
                 "seeded call orders incl. all permutations of <=3 calls) and 30% layout-stable chailang programs (control group); a program is "
                 "non-trivial iff the audit run saw at least one hint re-use; distinct by source")
     ctx.assumptions += ["known-finding attribution is by code path + circumstance reported by the audit hook; a new defect that only ever shows as one of "
